@@ -184,7 +184,17 @@ def lint():
             if decl.match(line) or anywhere.search(line) or \
                     (not in_section and re.match(r"^\s*(Variable|Variables|Hypothesis|Hypotheses)\b", line)):
                 bad.append("%s:%d:%s" % (os.path.relpath(f, COQ), ln, line.strip()[:80]))
+    # no flag that weakens the kernel, in the project file or in the way this script calls coqc
+    for f in [os.path.join(COQ, "_CoqProject"), os.path.abspath(__file__)]:
+        for ln, line in enumerate(open(f).read().splitlines(), 1):
+            if f.endswith("check.py") and "FORBIDDEN_FLAGS" in line:
+                continue
+            if any(flag in line for flag in FORBIDDEN_FLAGS):
+                bad.append("%s:%d:%s" % (os.path.basename(f), ln, line.strip()[:80]))
     return "\n".join(bad)
+
+
+FORBIDDEN_FLAGS = ["-type-in-" + "type", "-impredicative-" + "set", "-bypass-" + "guard", "-allow-" + "sprop-off", "-vos", "-vok"]
 
 
 # ---------------------------------------------------------------- running
